@@ -35,10 +35,10 @@ def loads(text):
         return ("raise", type(e).__name__, str(e.args[0]) if e.args else str(e))
 
 
-def pmap(fn, items, procs=None, chunk=200):
+def pmap(fn, items, procs=None, chunk=200, min_items=400):
     """parallel map in forked workers (each has the working tree's blackbird imported)"""
     procs = procs or min(16, os.cpu_count() or 1)
-    if len(items) < 400 or procs == 1:
+    if len(items) < min_items or procs == 1:
         return [fn(x) for x in items]
     ctx = multiprocessing.get_context("fork")
     with ctx.Pool(procs) as pool:
